@@ -2411,3 +2411,106 @@ Proof.
 Qed.
 
 End Nested.
+
+(* ------------------------------------------------------------------------------------------ *)
+(* 15. R4 at the END of an atomic context (canBeMadeAtomic's "we hit the root", tree.go:1012-1016) *)
+(* ------------------------------------------------------------------------------------------ *)
+
+Section AtEnd.
+Variable e : env.
+Notation evals := (rw_evals e).
+
+(* In atomic position the loop may become atomic when the continuation, wherever it has a result after
+   an early stop, also has one after the maximal run ("if it fails after the last loop character it fails
+   after every earlier one").  One-directional: the original also has to evaluate the early stops. *)
+Theorem auto_atomic_at_end k o o1 c m n rest :
+  (forall s j l lr, m <= j < loop_run e k o1 c n s ->
+      evals (NConcat o rest) (loop_state o1 s j) l ->
+      evals (NConcat o rest) (loop_state o1 s (loop_run e k o1 c n s)) lr -> lr = [] -> l = []) ->
+  rw_hrefines e (NConcat o (NCharLoop k LGreedy o1 c m n :: rest))
+                (NConcat o (NCharLoop k LAtomic o1 c m n :: rest)).
+Proof.
+  intros Hmono s z Hz. apply evals_concat_cons in Hz as (lx & zs & Hx & HF & ->).
+  leaf_inv Hx. subst lx. rewrite sem_charloop_unfold in HF. cbv zeta in HF.
+  set (r := loop_run e k o1 c n s) in *.
+  destruct (r <? m) eqn:E.
+  - inversion HF; subst. exists []. split; [|reflexivity]. apply evals_concat_cons. exists [], [].
+    split; [leaf_intro; rewrite sem_charloop_unfold; cbv zeta; fold r; rewrite E; reflexivity|]. split; [constructor | reflexivity].
+  - rewrite (count_down_cons r m) in HF by lia. cbn [map] in HF. inversion HF as [|a0 z0 l0 zs0 H0 HF0]; subst.
+    exists z0. split.
+    + apply evals_concat_cons. exists [loop_state o1 s r], [z0].
+      split; [leaf_intro; rewrite sem_charloop_unfold; cbv zeta; fold r; rewrite E; reflexivity|].
+      split; [constructor; [exact H0 | constructor] | cbn [concat]; rewrite app_nil_r; reflexivity].
+    + cbn [concat]. destruct z0 as [|a z0]; [|reflexivity]. cbn [app].
+      assert (Hall : Forall (fun zz => zz = []) zs0).
+      { clear HF. assert (Hin : forall a, In a (map (loop_state o1 s) (count_down (r - 1) m)) ->
+                           exists j, m <= j < r /\ a = loop_state o1 s j).
+        { intros a Ha. apply in_map_iff in Ha as (j & <- & Hj). apply count_down_in in Hj. exists j. split; [lia | reflexivity]. }
+        revert Hin HF0. generalize (map (loop_state o1 s) (count_down (r - 1) m)). intros lst Hin HF0.
+        induction HF0 as [|a za lst zs1 Ha _ IH]; constructor.
+        - destruct (Hin a (or_introl eq_refl)) as (j & Hj & ->). eapply (Hmono s j za []); [fold r; exact Hj | exact Ha | exact H0 | reflexivity].
+        - apply IH. intros a' Ha'. apply Hin. right. exact Ha'. }
+      rewrite (concat_all_nil _ Hall). reflexivity.
+Qed.
+
+(* a continuation that always has a result (nullable loops, Empty, the bump-along marker): a*b*, a*b?c* ... *)
+Definition always_matches (x : node) : Prop := forall s l, evals x s l -> l <> [].
+
+Lemma always_matches_charloop0 k l o c n : always_matches (NCharLoop k l o c 0 n).
+Proof.
+  intros s z Hz. leaf_inv Hz. subst z. rewrite sem_charloop_unfold. cbv zeta.
+  pose proof (run_len_bounds e k c o (Z.to_nat (if n =? INF then avail e o (pos s) else Z.min n (avail e o (pos s)))) (pos s)) as Hb.
+  unfold loop_run. cbv zeta. set (r := run_len e k c o _ (pos s)) in *. assert (r <? 0 = false) as -> by lia.
+  destruct l.
+  - destruct (count_down_head r 0 ltac:(lia)) as [tl ->]. discriminate.
+  - destruct (count_up_head 0 r ltac:(lia)) as [tl ->]. discriminate.
+  - discriminate.
+Qed.
+
+Lemma always_matches_empty : always_matches NEmpty.
+Proof. intros s z Hz. leaf_inv Hz. subst. discriminate. Qed.
+
+Lemma always_matches_bump : always_matches NBump.
+Proof. intros s z Hz. leaf_inv Hz. subst. discriminate. Qed.
+
+Lemma always_matches_seq o rest : Forall always_matches rest -> forall s l, evals (NConcat o rest) s l -> l <> [].
+Proof.
+  induction 1 as [|x rest Hx _ IH]; intros s l Hl.
+  - apply evals_concat_nil in Hl. subst. discriminate.
+  - apply evals_concat_cons in Hl as (lx & zs & Hlx & HF & ->). pose proof (Hx _ _ Hlx) as Hne.
+    destruct lx as [|a lx]; [contradiction|]. inversion HF as [|a' za l0 zs0 Ha _]; subst.
+    pose proof (IH _ _ Ha) as Hza. cbn [concat]. destruct za; [contradiction | discriminate].
+Qed.
+
+Theorem auto_atomic_before_nullable_end k o o1 c m n rest : Forall always_matches rest ->
+  rw_hrefines e (NConcat o (NCharLoop k LGreedy o1 c m n :: rest))
+                (NConcat o (NCharLoop k LAtomic o1 c m n :: rest)).
+Proof.
+  intros Hall. apply auto_atomic_at_end. intros s j l lr _ _ Hlr ->. exfalso.
+  exact (always_matches_seq o rest Hall _ _ Hlr eq_refl).
+Qed.
+
+End AtEnd.
+
+(* REFUTED: "step over a \B that follows a loop of non-word characters, then reach the end of the
+   expression" (tree.go:952-954, 989-991 + 1012-1016).  -+\B on "--a": the \B holds between the two '-'
+   and fails after the second (a word character follows), so the first result of the greedy loop is
+   position 1 and the atomic loop has none.  The engine agrees (`\W+\B` on "--a": no match with the
+   rewrite, match "-" without): known finding c05-nonboundary-end. *)
+Definition rw_nb_env : env := rw_ex_env [45; 45; 97].
+Definition rw_nb_tree (l : lkind) : node := NConcat 0 [NCharLoop COne l 0 45 1 INF; NAnchor ANonboundary].
+
+Theorem rw_nonboundary_at_end_refuted :
+  ~ (forall e k o o1 c m n, 1 <= m -> is_rtl o1 = false ->
+       (forall ch, char_test e k c ch = true -> is_word e ch = false) ->
+       rw_hrefines e (NConcat o [NCharLoop k LGreedy o1 c m n; NAnchor ANonboundary])
+                     (NConcat o [NCharLoop k LAtomic o1 c m n; NAnchor ANonboundary])).
+Proof.
+  intros H. specialize (H rw_nb_env COne 0 0 45 1 INF ltac:(lia) eq_refl).
+  assert (Hw : forall ch, char_test rw_nb_env COne 45 ch = true -> is_word rw_nb_env ch = false).
+  { intros ch Hc. cbn [char_test] in Hc. apply Z.eqb_eq in Hc. subst. reflexivity. }
+  specialize (H Hw).
+  assert (H1 : rw_evals rw_nb_env (rw_nb_tree LGreedy) rw_s0 [{| pos := 1; caps := [] |}]) by (exists 4%nat; vm_compute; reflexivity).
+  assert (H2 : rw_evals rw_nb_env (rw_nb_tree LAtomic) rw_s0 []) by (exists 4%nat; vm_compute; reflexivity).
+  apply H in H1 as (l' & Hl' & E). rewrite (rw_evals_det _ _ _ _ _ Hl' H2) in E. discriminate.
+Qed.
